@@ -2,7 +2,8 @@ use std::io;
 
 use noodles_vcf as vcf;
 use vcf::record::{
-    genotypes::sample::value::genotype::Genotype as VcfGenotype, Record as VcfRecord,
+    genotypes::{keys::key::GENOTYPE as GENOTYPE_KEY, sample::value::genotype::Genotype as VcfGenotype},
+    Record as VcfRecord,
 };
 
 use crate::input::{
@@ -44,10 +45,17 @@ where
         match self.inner.read_record(&self.header, &mut self.buf) {
             Ok(0) => ReadStatus::Done,
             Ok(_) => {
+                // A genotype written as `.` next to other values (e.g. `.:12` for `GT:DP`) is a
+                // missing genotype like any other, not an invalid record
                 let result = self
                     .buf
                     .genotypes()
-                    .genotypes()
+                    .values()
+                    .map(|sample| match sample.get(&GENOTYPE_KEY) {
+                        Some(None) => Ok(None),
+                        _ => sample.genotype().transpose(),
+                    })
+                    .collect::<Result<Vec<_>, _>>()
                     .map_err(|e| io::Error::new(io::ErrorKind::InvalidData, e));
 
                 match result {
@@ -104,6 +112,10 @@ impl From<Option<VcfGenotype>> for genotype::Result {
                     },
                     _ => genotype::Result::Skipped(genotype::Skipped::Missing),
                 },
+                // A lone `.` is how a wholly missing genotype arrives from BCF
+                [a] if a.position().is_none() => {
+                    genotype::Result::Skipped(genotype::Skipped::Missing)
+                }
                 _ => genotype::Result::Error(genotype::Error::PloidyError),
             },
             None => genotype::Result::Skipped(genotype::Skipped::Missing),
